@@ -37,7 +37,9 @@ def probe_spec(rng, k, ns=None, nc=None, nt=None, nsw=3, times_grid=6, tdtype='u
     spec = dict(
         tok=k, n_channels=nc, n_channels_dat=ncd, sample_rate=sr, dtype='int16', offset=0,
         spike_samples=samples, spike_templates=st, spike_clusters=sc,
-        amplitudes=[float(k * 1000 + i) + .5 for i in range(ns)],
+        # unique tokens; stored in double precision, every other one is NOT representable in single precision (x.1):
+        # a merged spike keeps its amplitude exactly
+        amplitudes=[float(k * 1000 + i) + (.5 if i % 2 else .1) for i in range(ns)],
         channel_map=rng.sample(range(ncd), nc), channel_positions=pos,
         templates=[[[cell(k, t, s, c) for c in range(nc)] for s in range(nsw)] for t in range(nt)],
         pc_feature_ind=[rng.sample(range(nc), nloc) for _ in range(nt)],
@@ -91,6 +93,10 @@ def merge_case(rng, nprobes=None, **kw):
     pdt = rng.pick(['float64', 'float64', 'float32', 'int32', 'uint32', 'int64', 'uint16'])
     for p in probes:
         p['dtypes'] = dict(p.get('dtypes') or {}, channel_positions=pdt)
+    if rng.random() < .3:
+        # probes sorted with different versions of the sorter: template waveforms in single / double precision
+        for p in probes:
+            p['dtypes'] = dict(p['dtypes'], templates=rng.pick(['float32', 'float64']))
     return dict(probes=probes, dirnames=rng.pick(['idx', 'rev', 'nat']), dirkind=rng.pick(['path', 'str']),
                 twice=rng.random() < .25)
 
